@@ -170,10 +170,15 @@ def real_run(wk, mx, jit, mode, nreq, seed):
     args = ["--max-requests", str(mx), "--max-requests-jitter", str(jit), "--graceful-timeout", "5", "--keep-alive", "2"]
     if mode == "parked":
         args[-1] = "6"
+    if mode == "ka0":
+        args[-1] = "0"
+    port2 = rp.free_port() if mode == "twolisten" else None
+    if port2:
+        args += ["-b", "127.0.0.1:%d" % port2]
     if mode == "drain":
         args += ["--timeout", "2"]
         args[args.index("--graceful-timeout") + 1] = "12"
-    nworkers = 1 if mode in ("burst", "parked", "drain") else 2
+    nworkers = 1 if mode in ("burst", "parked", "drain", "twolisten", "ka0") else 2
     s = rp.Server(wk, workers=nworkers, threads=(1 if mode == "burst" else 2) if wk == "gthread" else None, args=args, name="c18")
     pids = {}
     ev = []
@@ -188,9 +193,9 @@ def real_run(wk, mx, jit, mode, nreq, seed):
         for p in initial:
             pid_id(p)
 
-        def one(path):
+        def one(path, port=None):
             try:
-                st, body, info = s.get(path, timeout=8.0)
+                st, body, info = s.get(path, timeout=8.0, port=port)
                 pid, _ = rp.parse_ident(body)
                 ok = st == 200 and pid is not None and info["complete"]
                 rec = {"e": "resp", "ok": bool(ok), "pid": pid_id(pid) if pid else 0}
@@ -250,6 +255,20 @@ def real_run(wk, mx, jit, mode, nreq, seed):
             for i in range(mx - 1):
                 one("/pid")
             th.join()
+        elif mode == "ka0":
+            # keep-alive switched off: the limit applies all the same (requests paced so that a connection is not made
+            # in the second in which the worker leaves)
+            for i in range(nreq):
+                one("/pid")
+                time.sleep(1.2)
+        elif mode == "twolisten":
+            # two listeners: a long request on the first one takes the worker to its limit; a client of the second
+            # listener that arrives two seconds later belongs to the replacement
+            th = threading.Thread(target=one, args=("/sleep?t=4",))
+            th.start()
+            time.sleep(2.0)
+            one("/pid", port2)
+            th.join()
         elif mode == "burst":
             # more requests than handler threads arrive before the limit is reached: those queued for a thread are
             # in flight when the worker stops accepting
@@ -270,7 +289,7 @@ def real_run(wk, mx, jit, mode, nreq, seed):
         ev.append({"e": "end", "alive": sorted(alive), "initial": sorted(pid_id(p) for p in initial)})
         tr = {"max": mx, "jit": jit, "allow": allow, "workers": nworkers, "npids": max(len(pids), 1),
               "initial": sorted(pid_id(p) for p in initial), "ev": ev}
-        return tr, {"where": "real-" + mode if mode in ("burst", "parked", "drain") else "real", "wk": wk, "mode": mode, "nreq": nreq,
+        return tr, {"where": "real-" + mode if mode in ("burst", "parked", "drain", "twolisten", "ka0") else "real", "wk": wk, "mode": mode, "nreq": nreq,
                     "fails": [e.get("why") for e in ev if e.get("e") == "resp" and not e["ok"]][:3]}
     finally:
         s.cleanup()
@@ -303,9 +322,11 @@ def c18(ctx):
                 metas.append(m)
     plan = [("sync", 3, 0, "seq", 14), ("gthread", 3, 0, "seq", 14), ("gevent", 3, 0, "seq", 14), ("sync", 0, 0, "seq", 10),
             ("gthread", 3, 0, "burst", 4),     # the start-up probe is the worker's first request
-            ("gevent", 4, 0, "parked", 4), ("gevent", 3, 0, "drain", 0)]
+            ("gevent", 4, 0, "parked", 4), ("gevent", 3, 0, "drain", 0),
+            ("eventlet", 2, 0, "twolisten", 0), ("gthread", 3, 0, "ka0", 6)]
     if not ctx.quick:
-        plan += [("eventlet", 4, 0, "parked", 4), ("gthread", 4, 0, "parked", 4), ("eventlet", 3, 0, "drain", 0), ("gthread", 3, 0, "drain", 0),
+        plan += [("gevent", 2, 0, "twolisten", 0), ("gthread", 2, 0, "twolisten", 0), ("sync", 2, 0, "twolisten", 0),
+                 ("sync", 3, 0, "ka0", 6), ("gevent", 3, 0, "ka0", 6), ("eventlet", 4, 0, "parked", 4), ("gthread", 4, 0, "parked", 4), ("eventlet", 3, 0, "drain", 0), ("gthread", 3, 0, "drain", 0),
                  ("sync", 3, 0, "burst", 4), ("gevent", 3, 0, "burst", 4), ("eventlet", 3, 0, "burst", 4), ("gthread", 2, 0, "burst", 3)]
         plan += [(wk, mx, jit, mode, 24) for wk in ("sync", "gthread", "gevent", "eventlet")
                  for (mx, jit) in ((1, 0), (2, 1), (4, 2), (0, 0)) for mode in ("seq", "conc")]
@@ -317,7 +338,7 @@ def c18(ctx):
             results[i] = real_run(wk, mx, jit, mode, n, ctx.seed * 100 + i)
         except Exception as e:   # noqa  (machinery)
             results[i] = e
-    par = 7
+    par = 9
     for base in range(0, len(plan), par):
         ths = [threading.Thread(target=runner, args=(i,)) for i in range(base, min(base + par, len(plan)))]
         [t.start() for t in ths]
